@@ -11,6 +11,9 @@
                                     em = message 1..3; epos = byte position (informational)
        fk finit fclaim fsigk fsigm  forging endpoint: present?, is initiator?, claimed key 1..3 / 4 junk / 5 empty,
                                     signer 1..3 / 4 junk / 5 empty, signed message 0 good 1 other static 2 no prefix
+       pk pinit pstage pidx         a panic inside one endpoint's runHandshake: present?, in the initiator?, stage 0 = the
+                                    pidx-th Write on the insecure connection, 1 = the pidx-th Read, 2 = the early-data
+                                    handler's Send, 3 = its Received
        nsess                        1, or 2 for splice
        per session:  clsI ridI rkidI  clsR ridR rkidR
                                     cls 0 = completed, 1..5 error class; rid = RemotePeer() as a key number
@@ -145,11 +148,21 @@ Definition wf_forge (f : forge) : bool :=
   | FsBy k m => idk_eqb k KE || (match m with SmOtherStatic => true | _ => false end)
   | _ => true
   end.
+(* a fault comes alone (no edit, no forging endpoint); an early-data handler
+   exists only on a SessionTransport *)
+Definition wf_fault (sc : scenario) (f : fault) : bool :=
+  (match sc_edit sc with ENone => true | _ => false end) &&
+  (match ft_stage f with
+   | FWrite k | FRead k => Nat.ltb k 2
+   | FSend | FReceived => sd_session (if ft_init f then sc_i sc else sc_r sc)
+   end).
 Definition wf_scenario (sc : scenario) : bool :=
   match sc_forge sc with
-  | None => wf_side KA (sc_i sc) && wf_side KB (sc_r sc) && wf_edit (sc_edit sc)
+  | None => wf_side KA (sc_i sc) && wf_side KB (sc_r sc) && wf_edit (sc_edit sc) &&
+            (match sc_fault sc with None => true | Some f => wf_fault sc f end)
   | Some f =>
       (match sc_edit sc with ENone => true | _ => false end) && wf_forge f &&
+      (match sc_fault sc with None => true | Some _ => false end) &&
       (if f_init f then forger_side (sc_i sc) && wf_side KB (sc_r sc)
        else wf_side KA (sc_i sc) && forger_side (sc_r sc))
   end.
@@ -205,6 +218,14 @@ Definition forge_of (fk finit fclaim fsigk fsigm : Z) : option (option forge) :=
        | _, _ => None
        end.
 
+Definition fault_of_z (pk pinit pstage pidx : Z) : option (option fault) :=
+  if pk =? 0 then Some None
+  else if pstage =? 0 then Some (Some (mkFault (zbool pinit) (FWrite (Z.to_nat pidx))))
+  else if pstage =? 1 then Some (Some (mkFault (zbool pinit) (FRead (Z.to_nat pidx))))
+  else if pstage =? 2 then Some (Some (mkFault (zbool pinit) FSend))
+  else if pstage =? 3 then Some (Some (mkFault (zbool pinit) FReceived))
+  else None.
+
 Fixpoint obs_pairs (n : nat) (l : list Z) : option (list (obs * obs)) :=
   match n with
   | O => match l with [] => Some [] | _ => None end
@@ -222,17 +243,17 @@ Fixpoint obs_pairs (n : nat) (l : list Z) : option (list (obs * obs)) :=
 Definition decode_noise (l : list Z) : option (scenario * list (obs * obs)) :=
   match l with
   | _ :: _ :: idI :: seI :: diI :: exI :: prI :: idR :: seR :: diR :: exR :: prR ::
-    ek :: em :: ea :: eb :: _ :: fk :: fi :: fc :: fsk :: fsm :: ns :: rest =>
+    ek :: em :: ea :: eb :: _ :: fk :: fi :: fc :: fsk :: fsm :: pk :: pin :: pst :: pix :: ns :: rest =>
       match side_of idI seI diI exI prI, side_of idR seR diR exR prR,
-            edit_of ek em ea eb, forge_of fk fi fc fsk fsm with
-      | Some si, Some sr, Some e, Some f =>
+            edit_of ek em ea eb, forge_of fk fi fc fsk fsm, fault_of_z pk pin pst pix with
+      | Some si, Some sr, Some e, Some f, Some ft =>
           if (ns =? 1) || (ns =? 2)
           then match obs_pairs (Z.to_nat ns) rest with
-               | Some o => Some (mkSc si sr e f, o)
+               | Some o => Some (mkSc si sr e f ft, o)
                | None => None
                end
           else None
-      | _, _, _, _ => None
+      | _, _, _, _, _ => None
       end
   | _ => None
   end.
